@@ -46,6 +46,59 @@ func IsConst(e Expr) bool {
 	return false
 }
 
+// IsOverrideExpr reports whether e is an override-expression that is not a const-expression: built like a
+// const-expression but mentioning at least one override. WGSL evaluates such expressions at pipeline creation;
+// an overflow or other evaluation error in them is a pipeline-creation error.
+func IsOverrideExpr(e Expr) bool {
+	has := false
+	var ok func(e Expr) bool
+	ok = func(e Expr) bool {
+		switch e := e.(type) {
+		case *Lit:
+			return true
+		case *Ref:
+			if e.V.Kind == VOverride {
+				has = true
+				return true
+			}
+			return e.V.Kind == VConst
+		case *Materialize:
+			return ok(e.X)
+		case *Paren:
+			return ok(e.X)
+		case *Unary:
+			return ok(e.X)
+		case *Binary:
+			return ok(e.L) && ok(e.R)
+		case *Builtin:
+			if !constBuiltin[e.Name] {
+				return false
+			}
+			for _, a := range e.Args {
+				if !ok(a) {
+					return false
+				}
+			}
+			return true
+		case *Cons:
+			for _, a := range e.Args {
+				if !ok(a) {
+					return false
+				}
+			}
+			return true
+		case *Index:
+			return ok(e.X) && ok(e.I)
+		case *Field:
+			return ok(e.X)
+		case *Swiz:
+			return ok(e.X)
+		}
+		return false
+	}
+	return ok(e) && has
+}
+
 var constBuiltin = map[string]bool{"abs": true, "min": true, "max": true, "clamp": true, "sign": true, "floor": true, "ceil": true, "trunc": true, "round": true,
 	"fract": true, "step": true, "saturate": true, "select": true, "sqrt": true, "inverseSqrt": true, "fma": true, "mix": true, "dot": true, "cross": true,
 	"length": true, "distance": true, "normalize": true, "transpose": true, "determinant": true, "all": true, "any": true, "countOneBits": true,
